@@ -13,13 +13,13 @@ type weighted struct {
 var profiles = map[string][]weighted{
 	"safety": {{"apply", 30}, {"tick", 8}, {"isolate", 7}, {"partition", 6}, {"oneway", 3}, {"heal", 9}, {"crash", 6}, {"crashop", 6},
 		{"restart", 7}, {"restartall", 1}, {"lossy", 3}, {"snapshot", 3}, {"addvoter", 2}, {"addnonvoter", 1}, {"demote", 1}, {"remove", 2},
-		{"transfer", 3}, {"verify", 2}, {"barrier", 2}, {"reload", 2}, {"shutdown", 1}, {"stalesuffix", 1}, {"lagcompact", 1}, {"inheritedtail", 1}, {"join", 2}, {"flakyreads", 3}},
+		{"transfer", 3}, {"verify", 2}, {"barrier", 2}, {"reload", 2}, {"shutdown", 1}, {"stalesuffix", 1}, {"lagcompact", 1}, {"inheritedtail", 1}, {"join", 2}, {"flakyreads", 3}, {"snapfallback", 3}},
 	"election": {{"apply", 15}, {"tick", 8}, {"isolate", 12}, {"partition", 8}, {"oneway", 5}, {"heal", 12}, {"crash", 6}, {"crashop", 10},
 		{"restart", 10}, {"lossy", 6}, {"transfer", 6}, {"reload", 5}, {"addvoter", 1}, {"demote", 1}, {"remove", 2}, {"cutleader", 4}},
 	"snapshot": {{"apply", 35}, {"tick", 6}, {"lagcompact", 8}, {"stalesuffix", 6}, {"snapshot", 8}, {"crash", 6}, {"crashop", 6}, {"restart", 8},
-		{"isolate", 6}, {"heal", 8}, {"restartall", 2}, {"addvoter", 1}, {"remove", 1}, {"demote", 1}, {"transfer", 2}, {"reload", 2}, {"join", 2}, {"flakyreads", 5}, {"snapcfg", 6}, {"staleis", 4}},
+		{"isolate", 6}, {"heal", 8}, {"restartall", 2}, {"addvoter", 1}, {"remove", 1}, {"demote", 1}, {"transfer", 2}, {"reload", 2}, {"join", 2}, {"flakyreads", 5}, {"snapcfg", 6}, {"staleis", 4}, {"snapfallback", 5}},
 	"durability": {{"apply", 30}, {"tick", 6}, {"restartall", 6}, {"crash", 8}, {"restart", 10}, {"crashop", 8}, {"isolate", 8}, {"partition", 8},
-		{"heal", 10}, {"reload", 4}, {"remove", 1}, {"addvoter", 1}, {"demote", 1}, {"stalesuffix", 4}, {"transfer", 2}, {"lossy", 2}, {"cfgrestart", 5}, {"flakyreads", 3}, {"snapcfg", 4}},
+		{"heal", 10}, {"reload", 4}, {"remove", 1}, {"addvoter", 1}, {"demote", 1}, {"stalesuffix", 4}, {"transfer", 2}, {"lossy", 2}, {"cfgrestart", 5}, {"flakyreads", 3}, {"snapcfg", 4}, {"snapfallback", 5}},
 	"commit": {{"apply", 35}, {"tick", 6}, {"cutleader", 8}, {"partition", 8}, {"isolate", 4}, {"heal", 10}, {"addvoter", 2}, {"addnonvoter", 2},
 		{"demote", 2}, {"remove", 1}, {"crash", 4}, {"restart", 5}, {"barrier", 2}, {"lossy", 2}, {"join", 2}, {"flakyreads", 3}},
 	"membership": {{"apply", 20}, {"tick", 6}, {"addvoter", 9}, {"addnonvoter", 6}, {"demote", 7}, {"remove", 8}, {"transfer", 6}, {"isolate", 6},
@@ -165,6 +165,9 @@ func genAction(t *rapid.T, p *Program, ws []weighted) Action {
 		a.Arg = oneOf(t, "enqueueTimeout", 0, 0, 0, 1, 5)
 	case "barrier", "verify", "snapshot", "crash", "restart", "isolate", "shutdown", "getconfig", "aftershutdown":
 		a.Srv = tgt()
+		if a.Op == "restart" {
+			a.Arg = oneOf(t, "newestSnapshotUnreadableOnce", 0, 0, 1)
+		}
 	case "partition":
 		k := rapid.IntRange(1, max(1, p.N-1)).Draw(t, "sideSize")
 		perm := rapid.Permutation(seq(p.N)).Draw(t, "side")
@@ -220,6 +223,10 @@ func genAction(t *rapid.T, p *Program, ws []weighted) Action {
 	case "inheritedtail":
 		a.N = oneOf(t, "tail", 1, 2, 3, 5)
 		a.Arg = oneOf(t, "fresh", 1, 2, 3)
+	case "snapfallback":
+		a.Srv = tgt()
+		a.N = rapid.IntRange(0, 3).Draw(t, "gap")
+		a.Arg = rapid.IntRange(0, 1).Draw(t, "tailAfter")
 	case "busydisk":
 		a.N = rapid.IntRange(0, 3).Draw(t, "extraInFlight")
 		a.Set = []int{rapid.IntRange(0, 5).Draw(t, "firstCall"), rapid.IntRange(0, 12).Draw(t, "gapMs"), rapid.IntRange(0, 2).Draw(t, "leaves")}
